@@ -257,6 +257,19 @@ def replay_coll(groups):
             variants.append(("QuadricCollection.intersect(LineCollection)/3D/mixed-scales", recs,
                              lambda rs, f: g.QuadricCollection(np.array([d["r"]["Q"] for d in rs]) * qsc[: len(rs)][::-1, None, None]).intersect(
                                  g.join(g.PointCollection(np.array([d["r"]["A"] for d in rs])), g.PointCollection(np.array([d["r"]["B"] for d in rs]))))))
+        # two collection axes (2 x n/2): one quadric against a LineCollection grid
+        if len(same_q) >= 4:
+            n2 = (len(same_q) // 2) * 2
+            if dim == 2:
+                variants.append(("Conic.intersect(LineCollection)/two-axes", same_q[:n2],
+                                 lambda rs, f: [g.PointCollection(np.asarray(p.array).reshape((len(rs),) + np.asarray(p.array).shape[2:])) for p in
+                                                g.Conic(np.array(Q0)).intersect(g.LineCollection(np.array([d["r"]["l"] for d in rs], dtype=float).reshape(2, len(rs) // 2, 3)))]))
+            else:
+                variants.append(("Quadric.intersect(LineCollection)/3D/two-axes", same_q[:n2],
+                                 lambda rs, f: [g.PointCollection(np.asarray(p.array).reshape((len(rs),) + np.asarray(p.array).shape[2:])) for p in
+                                                g.Quadric(np.array(Q0)).intersect(g.join(
+                                                    g.PointCollection(np.array([d["r"]["A"] for d in rs]).reshape(2, len(rs) // 2, 4)),
+                                                    g.PointCollection(np.array([d["r"]["B"] for d in rs]).reshape(2, len(rs) // 2, 4))))]))
         for site, rs, fn in variants:
             if len(rs) < 2:
                 continue
